@@ -346,9 +346,10 @@ def norm_out(kind, method, o):
     return [scal(o)]
 
 
-def run_real(rec, obj, kind, x, slow_ok=True):
+def run_real(rec, obj, kind, x, slow_ok=True, cap=0.5):
     """run return_all and every individual method on the real object; one record per method.
-    returns None when the first call (return_all) took longer than 60 ms and slow_ok is False"""
+    returns None when the first call (return_all: one flash) took longer than 60 ms and slow_ok is False, or
+    longer than `cap` seconds in any case (the individual methods repeat that flash about 40 times)"""
     methods = FLUID_METHODS if kind == 'fluid' else INERT_METHODS
     call = call_fluid if kind == 'fluid' else call_inert
     res = {}
@@ -365,7 +366,7 @@ def run_real(rec, obj, kind, x, slow_ok=True):
         except Exception as e:          # a method that raises for valid input belongs to C20
             out = Raised(e)
         table = rec.stop()
-        if mth == 'return_all' and not slow_ok and time.time() - t0 > 0.06:
+        if mth == 'return_all' and (time.time() - t0 > cap or (not slow_ok and time.time() - t0 > 0.06)):
             return None
         K1 = None if kind != 'fluid' or obj.K is None else np.array(obj.K, dtype=float, copy=True)
         res[mth] = dict(K0=K0, K1=K1, out=out, table=table, slow=(time.time() - t0 > 0.06))
@@ -479,7 +480,7 @@ def run(ctx, lean_ok):
     r = ctx.rng
     nfl = ctx.n(130, 2500)
     nin = ctx.n(60, 1500)
-    slow_budget = ctx.n(2, 40)      # mixed-phase states whose flash takes > 50 ms (stability analysis at its iteration limit)
+    slow_budget = ctx.n(0, 30)      # mixed-phase states whose flash takes 60-500 ms (stability analysis at its iteration limit)
     cases = []
     lines = []
     owners = []       # (case index, method) per line
